@@ -18,22 +18,25 @@ from ..phys import DT, PT, bcol, check_equal, component, g, hook_summary, ncol, 
 from ..source import AnalysisError
 
 EXPLANATION = (
-    "Algebraic symmetries are decided on the normal forms of the numpy hydraulic kernels (tied to the numba twins by "
-    "C07): (R9.1) substituting p_from<->p_to, dh->-dh, m->-m, PL->0 turns the liquid and the gas residual into their "
+    'Algebraic symmetries are decided on the normal forms of the numpy hydraulic kernels (tied to the numba twins by '
+    'C07): (R9.1) substituting p_from<->p_to, dh->-dh, m->-m, PL->0 turns the liquid and the gas residual into their '
     "negation and leaves the friction loss' magnitude unchanged, so reversing a branch only flips the sign of its flow; "
-    "(R9.2) adding a constant to both end pressures leaves the liquid residual unchanged and the liquid density / heat "
-    "capacity read no pressure; (R9.3) in Pipe/BranchWInternals.create_pit_branch_entries every per-element column is "
-    "repeated per section (np.repeat by the section count), LENGTH is length_km*1000/sections, and internal node "
-    "temperature/pressure/height are interpolated between the end junctions (vinterp) and PAMB is the barometric "
-    "pressure of the interpolated height; (R9.4) several const-flow elements on a junction accumulate (+=) their "
-    "scaled, signed, in-service mass flows and a source is a negative sink; (R9.5) the thermal direction switch; "
-    "(R9.6) every branch component writes its ACTIVE column from its in_service/opened column and const-flow loads "
-    "carry the in_service factor; (R9.8, shared with C04 R4.5) flow-return-connecting branches (heat consumers, active flow controllers) are "
-    "re-admitted after the connectivity search only if they are in service. (R9.7) end symmetry of the pit construction: wherever a create_pit_branch_entries "
-    "writes TOUTINIT from node temperatures it reads TINIT of exactly the node it stores in TO_NODE for the same rows "
-    "(the from side is read as TINIT of FROM_NODE in the kernels), so swapping from/to mirrors the pair of end "
-    "temperatures the fluid properties are evaluated at; prescribed outlet temperatures (heat consumer return, pump flow "
-    "temperature) involve no node value. Not decided: equality of the results of two networks (runtime).")
+    '(R9.2) adding a constant to both end pressures leaves the liquid residual unchanged and the liquid density / heat '
+    'capacity read no pressure; (R9.3) in Pipe/BranchWInternals.create_pit_branch_entries every per-element column is '
+    'repeated per section (np.repeat by the section count), LENGTH is length_km*1000/sections, and internal node '
+    'temperature/pressure/height are interpolated between the end junctions (vinterp) and PAMB is the barometric pressure'
+    ' of the interpolated height; (R9.4) several const-flow elements on a junction accumulate (+=) their scaled, signed, '
+    'in-service mass flows and a source is a negative sink; (R9.5) the thermal direction switch; (R9.6) every branch '
+    'component writes its ACTIVE column from its in_service/opened column and const-flow loads carry the in_service '
+    'factor; (R9.8, shared with C04 R4.5) flow-return-connecting branches (heat consumers, active flow controllers) are '
+    're-admitted after the connectivity search only if they are in service. (R9.7) end symmetry of the pit construction: '
+    'wherever a create_pit_branch_entries writes TOUTINIT from node temperatures it reads TINIT of exactly the node it '
+    'stores in TO_NODE for the same rows (the from side is read as TINIT of FROM_NODE in the kernels), so swapping '
+    'from/to mirrors the pair of end temperatures the fluid properties are evaluated at; prescribed outlet temperatures '
+    '(heat consumer return, pump flow temperature) involve no node value. (R9.9, shared with C06 R6.3) the group sum that'
+    ' adds up the loads of one junction sorts indices and values together before it takes the group boundaries, so every '
+    'junction is returned once with the sum of all its entries. Not decided: equality of the results of two networks '
+    '(runtime).')
 ASSUMPTIONS = [phys.POSITIVITY_TEXT, "mean quantities (density, compressibility, mean temperature) are symmetric under branch reversal"]
 TECHNIQUE = "substitution in rational normal forms of the kernels; per-class value numbering of pit construction"
 
